@@ -245,3 +245,30 @@ META["C03"] = {
     "note": "Trusts the fake clock's total order between distinct instants; tie outcomes are accepted either way.",
     "technique": "property-based testing (rapid): model-based oracle over generated histories on a fake clock; exhaustive NAT matrix",
 }
+
+PROPS["C14"] = {
+    "rule": ("c14_http: sequences of 1-30 requests served by the real handlers (routes mounted as in main()) on a fake clock: "
+             "method in {GET,POST,OPTIONS,HEAD,PUT,DELETE,JUNK} x route x path suffix x headers (any Snowflake-NAT-Type, content "
+             "types, 5 KB header) x body (each valid message, valid with one mutation, random bytes, legacy {..} offers, "
+             "99 999 / 100 000 / 100 001 / 1 MiB bodies, wrong-shape JSON), interleaved with real proxy polls. Oracle: no handler "
+             "panics (that is what makes net/http drop the connection), every request returns within 12 fake seconds with a valid "
+             "status, afterwards the canaries (/robots.txt, /debug = 0 available, /prometheus, fresh clients told 'no proxies') "
+             "behave. Non-trivial = the sequence contains a body one mutation from valid, at the size limit, or a legacy offer. "
+             "c14_legacy: for a generated (offer, NAT header, proxy present/answering/silent) the legacy request and its versioned "
+             "equivalent are issued in equal broker states and must correspond (answer<->200+body, no proxies<->503, timed "
+             "out<->504, other error<->4xx/5xx), and the proxy must see the identical offer and NAT."),
+    "assumptions": ["requests are delivered to the handlers through httptest (no TCP): connection-level behaviour (keep-alive, pipelining) is covered only by the thorough wire tier"],
+    "units": [
+        U("c14_http", "inpkg", "broker", "^TestVerifC14HTTP$", (250, 4000), timeout=(300, 3000), wedge_is_violation=True),
+        U("c14_legacy", "inpkg", "broker", "^TestVerifC14Legacy$", (300, 4000), timeout=(300, 3000), wedge_is_violation=True),
+    ],
+}
+META["C14"] = {
+    "level": "Sampled exploration of request sequences against the real handlers with panics, latency (fake clock) and after-state as oracles, plus a differential oracle between the legacy and versioned client formats.",
+    "note": "Handlers are driven through httptest; a handler panic is equated with a dropped connection (net/http recovers and closes).",
+    "technique": "property-based testing (rapid): generated request sequences with mutation of valid messages; no-panic/latency/after-state invariants; differential legacy-vs-versioned oracle",
+}
+PROPS["C11"]["units"].append(U("c11_ampequiv", "inpkg", "broker", "^TestVerifC11AMPEquiv$", (300, 4000), timeout=(300, 3000), wedge_is_violation=True))
+PROPS["C11"]["rule"] += (" c11_ampequiv: generated polls (valid with any NAT/fingerprint/offer, one mutation from valid, random bytes, "
+                         "undecodable paths) sent through GET /amp/client/<EncodePath(poll)> and through POST /client in equal broker "
+                         "states (no proxy / answering proxy / silent proxy): the de-armored AMP body must equal the POST body.")
